@@ -1,1 +1,308 @@
 //! verif-hooks: fmt area (read-only accessors; see mod.rs)
+//!
+//! Number formatting and literal lexing on raw representations.  A number is
+//! handed over as sign / numerator limbs / denominator limbs (little-endian
+//! u64, exactly the `BigUint::Large` payload; one limb is stored as `Small`).
+//! Values are built and read back through the crate's own value codec, so the
+//! rational reaches `Value::format` unreduced and un-normalised, as given.
+
+use crate::error::FendError;
+use crate::interrupt::Never;
+use crate::lexer::{self, Token};
+use crate::num::Number;
+use crate::{Context, DecimalSeparatorStyle};
+
+/// sign / numerator / denominator of a real rational value plus its flags
+#[derive(Debug, Clone)]
+pub struct RawRat {
+	pub negative: bool,
+	pub num: Vec<u64>,
+	pub den: Vec<u64>,
+	/// `Value.exact`
+	pub exact: bool,
+	/// 1 = 0b, 2 = 0o, 3 = 0x, 4 = custom (`b#`), 5 = plain
+	pub base_tag: u8,
+	pub base: u8,
+}
+
+/// Formatting style: 1 fraction, 2 mixed_fraction, 3 float, 4 exact,
+/// 5 `n` dp, 6 `n` sf, 7 auto
+#[derive(Debug, Clone, Copy)]
+pub struct Style {
+	pub tag: u8,
+	pub n: u64,
+}
+
+fn err_name(e: &FendError) -> String {
+	let d = format!("{e:?}");
+	d.chars()
+		.take_while(|c| c.is_ascii_alphanumeric() || *c == '_')
+		.collect()
+}
+
+fn put_biguint(out: &mut Vec<u8>, limbs: &[u64], force_large: bool) {
+	if limbs.len() == 1 && !force_large {
+		out.push(1);
+		out.extend_from_slice(&limbs[0].to_be_bytes());
+	} else {
+		out.push(2);
+		out.extend_from_slice(&(limbs.len() as u64).to_be_bytes());
+		for l in limbs {
+			out.extend_from_slice(&l.to_be_bytes());
+		}
+	}
+}
+
+fn put_rat(out: &mut Vec<u8>, negative: bool, num: &[u64], den: &[u64], force_large: bool) {
+	out.push(if negative { 1 } else { 2 });
+	put_biguint(out, num, force_large);
+	put_biguint(out, den, force_large);
+}
+
+fn build(r: &RawRat, style: Style, force_large: bool) -> Result<Number, String> {
+	if r.num.is_empty() || r.den.is_empty() {
+		return Err("HookBadArgument".to_string());
+	}
+	let mut b = Vec::new();
+	b.extend_from_slice(&1u64.to_be_bytes()); // one-point distribution
+	b.push(1); // real part: Pattern::Simple
+	put_rat(&mut b, r.negative, &r.num, &r.den, force_large);
+	b.push(1); // imaginary part: Simple(0/1)
+	put_rat(&mut b, false, &[0], &[1], false);
+	put_rat(&mut b, false, &[1], &[1], false); // probability 1
+	b.extend_from_slice(&0u64.to_be_bytes()); // unitless
+	b.push(u8::from(r.exact));
+	match r.base_tag {
+		1..=3 => b.push(r.base_tag),
+		4 | 5 => {
+			b.push(r.base_tag);
+			b.push(r.base);
+		}
+		_ => return Err("HookBadArgument".to_string()),
+	}
+	match style.tag {
+		1..=4 | 7 => b.push(style.tag),
+		5 | 6 => {
+			b.push(style.tag);
+			b.extend_from_slice(&style.n.to_be_bytes());
+		}
+		_ => return Err("HookBadArgument".to_string()),
+	}
+	b.push(1); // simplifiable
+	let mut rd = &b[..];
+	let v = Number::deserialize(&mut rd).map_err(|e| format!("HookCodec{}", err_name(&e)))?;
+	if !rd.is_empty() {
+		return Err("HookCodecTrailing".to_string());
+	}
+	Ok(v)
+}
+
+struct Rd<'a>(&'a [u8]);
+impl Rd<'_> {
+	fn u8(&mut self) -> Option<u8> {
+		let (a, b) = self.0.split_first()?;
+		self.0 = b;
+		Some(*a)
+	}
+	fn u64(&mut self) -> Option<u64> {
+		if self.0.len() < 8 {
+			return None;
+		}
+		let (a, b) = self.0.split_at(8);
+		self.0 = b;
+		Some(u64::from_be_bytes(a.try_into().ok()?))
+	}
+	fn biguint(&mut self) -> Option<Vec<u64>> {
+		match self.u8()? {
+			1 => Some(vec![self.u64()?]),
+			2 => {
+				let n = self.u64()?;
+				let mut v = vec![];
+				for _ in 0..n {
+					v.push(self.u64()?);
+				}
+				Some(v)
+			}
+			_ => None,
+		}
+	}
+	fn rat(&mut self) -> Option<(bool, Vec<u64>, Vec<u64>)> {
+		let s = self.u8()?;
+		Some((s == 1, self.biguint()?, self.biguint()?))
+	}
+}
+
+/// Reads a value back as a raw rational. `Err("NotPlainRational")` if it is not
+/// a one-point, real, unitless, pi-free value.
+fn read_back(v: &Number) -> Result<RawRat, String> {
+	let mut bytes = Vec::new();
+	v.serialize(&mut bytes).map_err(|e| err_name(&e))?;
+	let bad = || "NotPlainRational".to_string();
+	let mut r = Rd(&bytes);
+	if r.u64().ok_or_else(bad)? != 1 {
+		return Err(bad());
+	}
+	if r.u8().ok_or_else(bad)? != 1 {
+		return Err(bad());
+	}
+	let (negative, num, den) = r.rat().ok_or_else(bad)?;
+	let _imag_tag = r.u8().ok_or_else(bad)?;
+	let (_, inum, _) = r.rat().ok_or_else(bad)?;
+	if inum.iter().any(|l| *l != 0) {
+		return Err(bad());
+	}
+	let _prob = r.rat().ok_or_else(bad)?;
+	if r.u64().ok_or_else(bad)? != 0 {
+		return Err(bad());
+	}
+	let exact = r.u8().ok_or_else(bad)? == 1;
+	let base_tag = r.u8().ok_or_else(bad)?;
+	let base = match base_tag {
+		1 => 2,
+		2 => 8,
+		3 => 16,
+		_ => r.u8().ok_or_else(bad)?,
+	};
+	Ok(RawRat {
+		negative,
+		num,
+		den,
+		exact,
+		base_tag,
+		base,
+	})
+}
+
+fn ctx(comma: bool) -> Context {
+	let mut c = Context::new();
+	if comma {
+		c.set_decimal_separator_style(DecimalSeparatorStyle::Comma);
+	}
+	c
+}
+
+/// `Value::format` of the given rational; the text includes the `approx. `
+/// prefix when the formatted value is flagged inexact.
+pub fn format_rat(r: &RawRat, style: Style, comma: bool, force_large: bool) -> Result<String, String> {
+	let v = build(r, style, force_large)?;
+	let c = ctx(comma);
+	let f = v.format(&c, &Never).map_err(|e| err_name(&e))?;
+	Ok(f.to_string())
+}
+
+/// `x ^ (en/ed)` through `Value::pow`, result read back raw.
+pub fn pow_rat(x: &RawRat, e: &RawRat) -> Result<RawRat, String> {
+	let st = Style { tag: 7, n: 0 };
+	let a = build(x, st, false)?;
+	let b = build(e, st, false)?;
+	let r = a
+		.pow(b, DecimalSeparatorStyle::Dot, &Never)
+		.map_err(|e| err_name(&e))?;
+	read_back(&r)
+}
+
+/// `a + b` through `Value::add` (flag propagation), result read back raw.
+pub fn add_rat(x: &RawRat, y: &RawRat) -> Result<RawRat, String> {
+	let st = Style { tag: 7, n: 0 };
+	let a = build(x, st, false)?;
+	let b = build(y, st, false)?;
+	let r = a
+		.add(b, DecimalSeparatorStyle::Dot, &Never)
+		.map_err(|e| err_name(&e))?;
+	read_back(&r)
+}
+
+/// One lexed token: a number read back raw, or the Debug text of anything else.
+#[derive(Debug)]
+pub enum Tok {
+	Num(Result<RawRat, String>),
+	Str(String),
+	Other(String),
+}
+
+/// Runs the lexer over `text`; stops at the first error (reported by variant
+/// name) or after `max` tokens.
+pub fn lex_tokens(text: &str, comma: bool, max: usize) -> (Vec<Tok>, Option<String>) {
+	let c = ctx(comma);
+	let mut out = vec![];
+	for t in lexer::lex(text, &c, &Never) {
+		match t {
+			Err(e) => return (out, Some(err_name(&e))),
+			Ok(Token::Num(n)) => out.push(Tok::Num(read_back(&n))),
+			Ok(Token::StringLiteral(s)) => out.push(Tok::Str(s.to_string())),
+			Ok(other) => out.push(Tok::Other(format!("{other:?}"))),
+		}
+		if out.len() >= max {
+			break;
+		}
+	}
+	(out, None)
+}
+
+// ---- direct access to the integer printer and the integer root -----------
+
+use crate::format::Format;
+use crate::num::verif_access::{Base, BigUint, BigUintFormatOptions};
+
+fn mk_biguint(limbs: &[u64], force_large: bool) -> BigUint {
+	if limbs.len() == 1 && !force_large {
+		BigUint::Small(limbs[0])
+	} else {
+		BigUint::Large(limbs.to_vec())
+	}
+}
+
+fn mk_base(base_tag: u8, base: u8) -> Result<Base, String> {
+	match base_tag {
+		1 => Base::from_zero_based_prefix_char('b'),
+		2 => Base::from_zero_based_prefix_char('o'),
+		3 => Base::from_zero_based_prefix_char('x'),
+		4 => Base::from_custom_base(base),
+		5 => Base::from_plain_base(base),
+		_ => return Err("HookBadArgument".to_string()),
+	}
+	.map_err(|e| err_name(&e))
+}
+
+/// `impl Format for BigUint` on raw limbs (a single limb is `Small` unless
+/// `force_large`; leading zero limbs are passed through). Returns the text,
+/// the exact flag and `num_digits()`.
+pub fn format_biguint(
+	limbs: &[u64],
+	force_large: bool,
+	base_tag: u8,
+	base: u8,
+	write_base_prefix: bool,
+	sf_limit: Option<usize>,
+) -> Result<(String, bool, usize), String> {
+	if limbs.is_empty() {
+		return Err("HookBadArgument".to_string());
+	}
+	let n = mk_biguint(limbs, force_large);
+	let opts = BigUintFormatOptions {
+		base: mk_base(base_tag, base)?,
+		write_base_prefix,
+		sf_limit,
+	};
+	let f = n.format(&opts, &Never).map_err(|e| err_name(&e))?;
+	Ok((f.value.to_string(), f.exact, f.value.num_digits()))
+}
+
+fn biguint_limbs(n: &BigUint) -> Vec<u64> {
+	let mut b = Vec::new();
+	if n.serialize(&mut b).is_err() {
+		return vec![];
+	}
+	Rd(&b).biguint().unwrap_or_default()
+}
+
+/// `BigUint::root_n` on raw limbs: (root limbs, exact).
+pub fn root_biguint(x: &[u64], n: &[u64]) -> Result<(Vec<u64>, bool), String> {
+	if x.is_empty() || n.is_empty() {
+		return Err("HookBadArgument".to_string());
+	}
+	let r = mk_biguint(x, false)
+		.root_n(&mk_biguint(n, false), &Never)
+		.map_err(|e| err_name(&e))?;
+	Ok((biguint_limbs(&r.value), r.exact))
+}
